@@ -6,6 +6,7 @@ func init() {
 	vHarnesses["H_C12_newmap"] = H_C12_newmap
 	vHarnesses["H_C12_overlap"] = H_C12_overlap
 	vHarnesses["H_C12_malformed"] = H_C12_malformed
+	vHarnesses["H_C12_overlap_deep"] = H_C12_overlap_deep
 }
 
 type vStored struct {
@@ -14,8 +15,10 @@ type vStored struct {
 }
 
 // vNondetNewPath: a dot path of 1-2 one-byte segments, optionally with a trailing dot.
+var vNewPathMax = 2
+
 func vNondetNewPath(alpha string) ([]string, string) {
-	n := 1 + vChoose(2)
+	n := 1 + vChoose(vNewPathMax)
 	segs := make([]string, n)
 	for i := range segs {
 		segs[i] = vNondetString(1, 1, alpha)
@@ -176,6 +179,13 @@ func H_C12_overlap() {
 		return
 	}
 	vC12(vSpec{Depth: 2, Width: 2, Kinds: "mls", KeyAlpha: "ab", KeyMin: 1, KeyMax: 1, StrAlpha: "x", StrMax: 0, NoListInList: true}, 2, true, false, -1)
+}
+
+// a later new path that runs through a projected value down into a list of the receiver
+func H_C12_overlap_deep() {
+	vNewPathMax = 3
+	vC12(vSpec{Depth: 3, Width: 1, Kinds: "mls", KeyAlpha: "ab", KeyMin: 1, KeyMax: 1, StrAlpha: "x", StrMax: 0, NoListInList: true, NoEmptyList: true}, 2, true, false, -1)
+	vNewPathMax = 2
 }
 
 func H_C12_malformed() {
